@@ -450,4 +450,36 @@ def unit_sac_policy(S):
                 what="__call__ and action_and_log_prob use the same distribution parameters for the same observation")
 
 
-UNITS = [("mask", unit_mask), ("actor-critic", unit_actor_critic), ("q-policy", unit_q_policy), ("sac-policy", unit_sac_policy)]
+def _ctor_unit(S):
+    """the exploration rate the epsilon-greedy rule uses is the configured one (0 = always greedy included): MLPQPolicy.__init__ extracted with epsilon and the key symbolic
+    (parameter initialisation draws cut at jax.random.uniform)"""
+    from lerax.policy import MLPQPolicy
+    from lvc.extract import fork_paths, eval_traced
+    fn = "lerax.policy.q.mlp:MLPQPolicy.__init__"
+    S.under_contract(fn)
+    E = GenericEnv(Discrete(3))
+    ctx = Ctx()
+    e, ec = kit.real_scalar("epsilon")
+    k, _ = kit.key_input("key")
+
+    def prog(ee, kk):
+        return jnp.asarray(MLPQPolicy(E, epsilon=ee, key=kk, width_size=2, depth=1).epsilon, jnp.float32)
+
+    def rp(model):
+        for v in [kit.model_float(model, "epsilon", 0.0), 0.0, 1.0, 0.25]:
+            got = float(MLPQPolicy(E, epsilon=float(v), key=jax.random.key(0), width_size=2, depth=1).epsilon)
+            if got != float(v) and got != float(jnp.float32(v)):
+                return dict(reproduced=True, route="R1 (real MLPQPolicy constructor)", inputs=dict(epsilon=float(v)), observed=dict(stored_epsilon=got))
+        return dict(reproduced=False, note="MLPQPolicy stores epsilon unchanged for 0, 1 and interior values")
+    with extract.patched((jr, "uniform", uniform_stub)):
+        paths = fork_paths(prog, (e, k), raises=(ValueError, AssertionError, TypeError))
+    okp = [p for p in paths if p[0] is not None]
+    goals = []
+    for tr, dyn, dec in okp:
+        conds, out = eval_traced(ctx, tr, dyn)
+        goals.append(ir.simplies(sand(*[ir.seq(c_.scalar(), d_) for c_, d_ in zip(conds, dec)]), ir.seq(out.scalar(), ec)))
+    S.prove("MLPQPolicy.__init__/stores-epsilon", ctx, sand(*goals) if okp else z3.BoolVal(False), function=fn, replay=rp,
+            what=f"for all real epsilon the constructor accepts ({len(okp)} accepting of {len(paths)} paths): the policy's epsilon field is the constructor argument")
+
+
+UNITS = [("constructor", _ctor_unit), ("mask", unit_mask), ("actor-critic", unit_actor_critic), ("q-policy", unit_q_policy), ("sac-policy", unit_sac_policy)]
